@@ -63,11 +63,8 @@ def badImage (parts : List (Nat × Part)) : Option (Nat × Nat) :=
       | .img im => if imageOK im cells then none else some (start, j)
       | .absent => none)
 
-/-- C03-shared-str-const-panic: the model predicts a worker panic and some partition has a string literal that is
-    compared both with a dictionary-coded and with a decoded string column (`sharedStrLiteral`). -/
-def classify (_fp : FP) (parts : List (Nat × Part)) (e : Expr) (_rows : List Row) (model : QOut) (_spec : Res (List Row)) : String :=
-  match model with
-  | .err .panic => if parts.any (fun sp => sharedStrLiteral sp.2 e) then "C03-shared-str-const-panic" else ""
-  | _ => ""
+/-- No open finding of C03 has a classifier at present (C03-and-or-null fixed by 92690d6, C03-shared-str-const-panic by
+    186ef0c): nothing is suppressed, every spec failure is a VIOLATION. -/
+def classify (_fp : FP) (_parts : List (Nat × Part)) (_e : Expr) (_rows : List Row) (_model : QOut) (_spec : Res (List Row)) : String := ""
 
 end LM.Filter.Findings
